@@ -213,7 +213,7 @@ pub fn describe_prog(p: &RedeemNode) -> (J, J, J) {
             }
             Inner::Word(wd) => {
                 w = val_cz(&wd.as_value().as_ref(), &a.target);
-                json!(["word", 0, 0, [ty_cz(&a.source), ty_cz(&a.target)], bits_j(wd.iter())])
+                json!(["word", 0, 0, [ty_cz(&a.source), ty_cz(&a.target)], bits_j(word_bits_by_accessors(&wd.as_value().as_ref()))])
             }
         };
         dag.push(nd);
